@@ -900,7 +900,8 @@ func (jf *JSONFamily) installWriteProperty(g, parent *ssa.Function) {
 		if e.cur.epoch != e.entry.epoch {
 			frame = "false"
 		}
-		for k, n := range e.cur.heaps {
+		for _, k := range sortedKeys(e.cur.heaps) {
+			n := e.cur.heaps[k]
 			if modKeys[k] || k == fsKey {
 				continue
 			}
@@ -1012,7 +1013,8 @@ func (jf *JSONFamily) installWriteItem(g, parent *ssa.Function) {
 		if e.cur.epoch != e.entry.epoch {
 			frame = "false"
 		}
-		for k, n := range e.cur.heaps {
+		for _, k := range sortedKeys(e.cur.heaps) {
+			n := e.cur.heaps[k]
 			if modKeys[k] || k == fsKey {
 				continue
 			}
